@@ -13,7 +13,11 @@ def decode(string):
   return unsafe_decode(string)
 
 def validate_decoded(obj):
-  if isinstance(obj, int):
+  if isinstance(obj, bool):
+    raise gfapy.TypeError(
+      "the class bool is incompatible with the datatype\n"+
+      "(accepted classes: str, int, float)")
+  elif isinstance(obj, int):
     pass
   elif isinstance(obj, float):
     if not math.isfinite(obj):
